@@ -32,6 +32,9 @@ type c07cfg struct {
 	// operator 300ms after the first one started (its drain, with twice the drain timeout, overlaps the first one's)
 	overlap bool
 	deep    bool // explored with <=2 deviations in the quick tier too
+	// tightTail: the last command follows its predecessor at once (the earlier ones are a gap apart): a request held
+	// since the first command is released by the second-to-last one and meets the last one
+	tightTail bool
 	// slowDeploy: redeployed targets turn healthy only at their second probe, so that (with overlap) the second
 	// command lands while the deploy is still waiting for them
 	slowDeploy bool
@@ -42,7 +45,7 @@ func (c c07cfg) String() string {
 	for _, x := range c.clients {
 		cl = append(cl, fmt.Sprintf("%s@%v", x.kind, x.offset))
 	}
-	return fmt.Sprintf("seq=%s gap=%v clients=[%s] rollout=%v inflight=%v overlap=%v", c.seq, c.gap, strings.Join(cl, ","), c.rollout, c.inflight, c.overlap)
+	return fmt.Sprintf("seq=%s gap=%v clients=[%s] rollout=%v inflight=%v overlap=%v", c.seq, c.gap, strings.Join(cl, ","), c.rollout, c.inflight, c.overlap) + map[bool]string{true: " last-command-at-once"}[c.tightTail]
 }
 
 const (
@@ -110,6 +113,10 @@ func c07Configs(tier string) []c07cfg {
 		for _, s := range []string{"PSp", "PSP", "PRS", "pSR"} {
 			cfgs = append(cfgs, c07cfg{seq: s, gap: 0, clients: sets[0], deep: true})
 		}
+	}
+	// a held request is released by resume / stop and the next command follows at once
+	for _, s := range []string{"PRS", "PRP", "PRp", "PSP", "PSR"} {
+		cfgs = append(cfgs, c07cfg{seq: s, gap: 1200 * time.Millisecond, clients: []c07client{{"get", 600 * time.Millisecond}, {"get", 600 * time.Millisecond}}, deep: true, tightTail: true})
 	}
 	// the next command lands at the very instant at which the hold limit of a request held since the pause expires
 	for _, s := range []string{"pS", "pR", "pP"} {
@@ -211,7 +218,7 @@ func c07Scenario(c c07cfg) *Scenario {
 				if c.overlap && i == 1 {
 					continue
 				}
-				if i > 0 && c.gap > 0 {
+				if i > 0 && c.gap > 0 && !(c.tightTail && i == len(c.seq)-1) {
 					time.Sleep(c.gap)
 				}
 				if c.overlap && i == 0 {
